@@ -2,7 +2,8 @@
 
 A generated scratch project (BASE_DIR = <case>/proj, optional second import root <case>/ext for "third-party" apps) holds
 trees under 1-2 component dirs (given through COMPONENTS.dirs, legacy STATICFILES_DIRS incl. the (prefix, path) tuple form,
-or the BASE_DIR/components default) and under the app-level dirs of 0-2 generated Django apps registered with
+or the BASE_DIR/components default; each configured dir in a normalised or a non-normalised absolute spelling; optionally a
+populated folder that is not configured at all) and under the app-level dirs of 0-2 generated Django apps registered with
 override_settings(INSTALLED_APPS=...).  get_component_files(suffix) is compared, for several suffixes, with an independent
 os.walk model (public-path rule + dotted-path rule); returned `.py` dot paths are resolved with importlib
 (find_spec -> origin must be that file); autodiscover() must return the same module list and execute exactly those files
@@ -25,7 +26,10 @@ RULE = (
     "Case = scratch project tree + settings variant. Component dirs: 1-2 disjoint dirs below BASE_DIR (also below an "
     "underscore-named parent, `_lib/ui`), configured via COMPONENTS.dirs (str / Path / (prefix, path) tuple), via legacy "
     "STATICFILES_DIRS (plain and tuple form) with COMPONENTS.dirs unset, or not at all (default BASE_DIR/components); "
-    "optionally one configured dir that does not exist; BASE_DIR as str or Path. Apps: 0-2 generated packages (flat and "
+    "optionally one configured dir that does not exist; each configured dir spelled normalised or as another absolute "
+    "spelling of the same directory (a `..` segment through a sibling dir / through itself / through BASE_DIR, a `.` segment, "
+    "a trailing or doubled slash); optionally one more populated component-like folder that is NOT configured (often "
+    "BASE_DIR/components, the default name) whose files must not be returned; BASE_DIR as str or Path. Apps: 0-2 generated packages (flat and "
     "nested dotted names, inside the project or in a second sys.path root outside BASE_DIR) with default or custom "
     "COMPONENTS.app_dirs (one or two entries, one nested). Files: paths of 0-3 directory names + stem + extension from "
     "pools with `_`/`__`/`.`-prefixed names at every level, __init__.py, __init__.js, __main__.py, __pycache__, multi-dot "
@@ -39,7 +43,9 @@ ASSUMPTIONS = [
     "no directory whose name ends with a queried suffix; for suffix=None the glob also yields directories - entries that "
     "are directories are ignored (counted as `none_suffix_dir_entries`), only files are compared",
     "no names with two consecutive dots or a trailing dot (dropped by the loader as 'not a module', indistinguishable from a hidden part)",
-    "no hidden or dotted directory between BASE_DIR and a component dir; no symlinks",
+    "no hidden or dotted directory between BASE_DIR and a component dir; no symlinks; BASE_DIR itself is spelled normalised "
+    "(only the configured component dirs get non-normalised spellings)",
+    "returned file paths are compared after os.path.normpath: a result naming the right file through another spelling is the right file",
     "importability (find_spec) and autodiscover() are asserted only when every path part is dot-free and no sibling "
     "`name/` + `name.py` pair makes the dotted name ambiguous; otherwise only membership and the dot-path formula are asserted",
     "order of the returned list is not asserted (get_component_dirs returns a set)",
@@ -53,6 +59,11 @@ APP_DIRS = [None, None, None, ["components"], ["djc"], ["components", "widgets/u
 DIRNAMES = ["pkg", "pkg", "sub", "sub", "widgets", "card", "card", "a1", "_private", "_private", "__pycache__", "_", ".hidden", ".git", "pkg.v2", "tests", "my-dir", "ünï"]
 STEMS = ["mod", "mod", "comp", "x", "card", "views", "_priv", "_priv", "__init__", "__init__", "__init__", "__main__", "_", "__x__", ".hid", "a.b", "my-comp", "Card", "mod_", "x_y", "café"]
 EXTS = [".py", ".py", ".py", ".py", ".js", ".css", ".html", ".PY", ".pyc", ".pyi", ".py.bak", ".txt", "", ".min.js"]
+# absolute spellings of one and the same directory (see _spell); "plain" = normalised
+SPELLINGS = ["plain", "plain", "plain", "plain", "dotdot_sibling", "dotdot_sibling", "dotdot_self", "dotdot_base", "dot_segment", "trailing_slash", "double_slash"]
+SIBLING = "cfg"  # existing, empty directory below BASE_DIR that `dotdot_sibling` walks through (settings-module arithmetic: BASE_DIR/"cfg"/".."/"comps")
+# populated folder below BASE_DIR that is not configured anywhere: the default name (most likely to be picked up by mistake) or any other
+UNLISTED = [None] * 4 + ["components"] * 6 + COMP_DIRS
 OUTSIDE = ["proj/manage.py", "proj/src/__init__.py", "proj/src/x.py", "proj/_lib/__init__.py", "proj/comps_old/x.py", "proj/src/widgets_x/y.py", "ext/setup.py", "proj/x.js"]
 TOP_NAMES = sorted({d.split("/")[0] for d in COMP_DIRS} | {a.split(".")[0] for a, _ in APPS})
 
@@ -149,6 +160,23 @@ def _form(path, form):
     return path
 
 
+def _spell(proj, d, how):
+    """An absolute spelling of the directory proj/d; all of them name the same directory (no symlinks in the tree)."""
+    if how == "dotdot_sibling":
+        return "%s/%s/../%s" % (proj, SIBLING, d)
+    if how == "dotdot_self":
+        return "%s/%s/../%s" % (proj, d, d.split("/")[-1])
+    if how == "dotdot_base":
+        return "%s/../%s/%s" % (proj, posixpath.basename(proj), d)
+    if how == "dot_segment":
+        return "%s/./%s" % (proj, d)
+    if how == "trailing_slash":
+        return "%s/%s/" % (proj, d)
+    if how == "double_slash":
+        return "%s//%s" % (proj, d)
+    return posixpath.join(proj, d)
+
+
 def run_case(case, col=None):
     from pathlib import Path
 
@@ -180,7 +208,13 @@ def run_case(case, col=None):
         trees.write_tree(root, case["files"], content=MARKER)
 
         comp_dirs = [posixpath.join(proj, d) for d in case["compdirs"]]
-        configured = [_form(d, f) for d, f in zip(comp_dirs, case["dir_forms"])]
+        spells = case.get("dir_spell") or ["plain"] * len(comp_dirs)
+        os.makedirs(posixpath.join(proj, SIBLING), exist_ok=True)
+        configured = [_form(_spell(proj, d, sp), f) for d, sp, f in zip(case["compdirs"], spells, case["dir_forms"])]
+        for d, c in zip(comp_dirs, configured):  # harness sanity: every spelling names the very directory the model walks
+            c = c[1] if isinstance(c, tuple) else c
+            if os.path.normpath(str(c)) != d:
+                raise AssertionError("spelling %r does not denote %r" % (c, d))
         if case.get("missing_dir"):
             configured.append(posixpath.join(proj, "nonexistent_dir"))
         app_dirs = case.get("app_dirs") or ["components"]
@@ -237,7 +271,7 @@ def run_case(case, col=None):
                         continue
                     got = Counter()
                     for ent in res:
-                        fp = str(ent.filepath)
+                        fp = os.path.normpath(str(ent.filepath))
                         if suffix is None and os.path.isdir(fp):
                             n_dir_entries += 1
                             continue
@@ -328,6 +362,16 @@ def run_case(case, col=None):
                 labels.append("tuple_form")
             if case.get("base_dir_form") == "path":
                 labels.append("base_dir_is_path")
+            in_effect = {"default": [], "dirs_empty": [], "dirs_and_static": spells[:1]}.get(case["source"], spells)
+            if any(sp.startswith("dotdot") for sp in in_effect):
+                labels.append("effective_dir_spelled_with_dotdot")
+            if any(sp in ("dot_segment", "trailing_slash", "double_slash") for sp in in_effect):
+                labels.append("effective_dir_spelled_with_dot_or_extra_slash")
+            unlisted_pop = [u for u in case.get("unlisted") or [] if _has_public_file(posixpath.join(proj, u))]
+            if unlisted_pop:
+                labels.append("unlisted_populated_dir")
+                if "components" in unlisted_pop and case["source"] == "static":
+                    labels.append("unlisted_default_named_dir_with_legacy_static")
             deep_private = hidden = pub_init = multidot = False
             for d, _m, _p in sources:
                 if not d.startswith(root + "/"):
@@ -357,6 +401,10 @@ def run_case(case, col=None):
             seen.add(b)
             out.append((m, b))
     return out
+
+
+def _has_public_file(d):
+    return any(_public(rel.split("/")) for rel in trees.walk_files(d))
 
 
 def _why(f, sources, suffix):
@@ -405,9 +453,12 @@ def case_strategy(max_files):
             compdirs = draw(st.lists(st.sampled_from(COMP_DIRS), min_size=1, max_size=2, unique=True))
         forms = ["str", "path", "tuple", "tuple_path"] if source != "default" else ["str"]
         dir_forms = [draw(st.sampled_from(forms)) for _ in compdirs]
+        dir_spell = [draw(st.sampled_from(SPELLINGS if source != "default" else ["plain"])) for _ in compdirs]
+        extra = draw(st.sampled_from(UNLISTED))
+        unlisted = [extra] if extra and extra not in compdirs else []
         apps = draw(st.lists(st.sampled_from(APPS), max_size=2, unique_by=lambda a: a[0]))
         app_dirs = draw(st.sampled_from(APP_DIRS))
-        bases = ["proj/" + d for d in compdirs] * 2
+        bases = ["proj/" + d for d in compdirs] * 2 + ["proj/" + d for d in unlisted] * 2
         for aname, where in apps:
             for ad in app_dirs or ["components"]:
                 bases.append("%s/%s/%s" % (where, aname.replace(".", "/"), ad))
@@ -422,6 +473,8 @@ def case_strategy(max_files):
             "source": source,
             "compdirs": compdirs,
             "dir_forms": dir_forms,
+            "dir_spell": dir_spell,
+            "unlisted": unlisted,
             "missing_dir": draw(st.sampled_from([False, False, False, True])) and source != "default",
             "base_dir_form": draw(st.sampled_from(["str", "path"])),
             "apps": [list(a) for a in apps],
